@@ -766,6 +766,11 @@ def _c15() -> List[Obl]:
         for g in ("0", "77", "big"):
             out.append(Obl(id=f"c15.update_many.{g}.{sz}", prop="C15", engine="kani", target=f"obl_c15::{sz}_update_many_{g}", tier=tier, kind="bounded",
                            bound="value fixed to a grid point (0, 77, 2^33+12345); multiplicity symbolic < 2^20", fns=[f"CodesStats::update_many on {txt}"]))
+    for t, b in (("update_exact", "26 values x 4 multiplicities: every tracked total of the default instance against an independent recomputation with Codes::len"),
+                 ("best_is_minimum", "single values, pairs and one long multiset: reported cost = minimum total = bits the reported code really needs"),
+                 ("merge_is_union", "add, +, +=, sum of two partial statistics = statistics of the union")):
+        out.append(Obl(id=f"c15.default_instance.{t}", prop="C15", engine="native", target=f"c15_default:c15_default_{t}", kind="bounded",
+                       bound="concrete execution: " + b, fns=["CodesStats<10,20,10,10,10>::{update, update_many, add, best_code}"]))
     for hm, E in (("hbe", "BE"), ("hle", "LE")):
         out.append(Obl(id=f"c15.wrapper.{E}", prop="C15", engine="native", target=f"c10_grid:c10_grid_stats_{E.lower()}", kind="bounded",
                        bound="concrete execution: 51 identifiers x 11 values", fns=["CodesStatsWrapper::{read,write}: pass-through and exactly one update(value) per successful operation"]))
